@@ -6,7 +6,7 @@ import re
 
 from typing import Any
 
-from ..charclass import EITHER, FACTS, CharInterp, S, bad_identifier_chars, members
+from ..charclass import EITHER, FACTS, CharInterp, I, L, S, bad_identifier_chars, join_s, members
 from ..astutil import Locals, anon, call_name, cfg_of, constructs_error, local_names, norm, region, short, stmt_of
 from ..cfg import walk_own
 from ..core import PKG, AnalysisError, Report
@@ -78,7 +78,9 @@ def run(rep: Report, ctx: Any) -> str:
     # enum member names
     f = ix.func("EnumProperty.values_from_list")
     ch.stores = []
-    ch.run_function(f, {"values": EITHER, "class_info": None})
+    # every parameter ranges over everything its annotation admits (lists of strings, strings, ints: arbitrary ones); a parameter
+    # whose annotation says nothing the interpreter can use stays unbound, and reading it for a name ends in exit 2, not in a pass
+    ch.run_function(f, {"class_info": ("object",), **abstract_arguments(ch, f, call_sites(ix)), "values": EITHER})
     # the member table is whatever the function returns
     returned = {norm(r.value) for r in ast.walk(f.node) if isinstance(r, ast.Return) and r.value is not None}
     stores = [s for s in ch.stores if s[0] in returned]
@@ -193,6 +195,34 @@ def validity_obligations(rep: Report, t: Any, key: str, s: S, what: str, where: 
                   where=where, lhs=s.describe(t), rhs="not a keyword, not in RESERVED_WORDS", path=path)
 
 
+# ---- the arguments of a function "for all inputs" ---------------------------------------------------------------------------------
+def abstract_arguments(ch: CharInterp, f: Any, sites: list[tuple[ast.Call, Any, Any]]) -> dict[str, Any]:
+    """what each annotated parameter of f can be, as far as the annotation says it in terms the character interpreter has: a list of
+    strings (whatever else it may be - None, absent - counts as the empty list), a string, an int.  Strings are arbitrary.  A parameter
+    with a default that no call in the package supplies is not listed: it is its default."""
+    out: dict[str, Any] = {}
+    calls = [c for c, _h, m in sites if _is_call_of(c, f, m)]
+    for a in f.params:
+        if a.annotation is None:
+            continue
+        if _default_of(f.node, a.arg) is not None and all(_supplied(c, f, a.arg) is None for c in calls):
+            continue
+        ann = a.annotation
+        if isinstance(ann, ast.Constant) and isinstance(ann.value, str):
+            try:
+                ann = ast.parse(ann.value, mode="eval").body
+            except SyntaxError:
+                continue
+        names = {n.id if isinstance(n, ast.Name) else n.attr for n in ast.walk(ann) if isinstance(n, (ast.Name, ast.Attribute))}
+        names -= {"Optional", "Union", "None", "typing", "t"}
+        seqs = names & {"list", "List", "Sequence", "Iterable", "tuple", "Tuple", "Collection"}
+        if names - seqs == {"str"}:
+            out[a.arg] = L(ch.TOP, True) if seqs else ch.TOP
+        elif names == {"int"}:
+            out[a.arg] = I("any")
+    return out
+
+
 # ---- regular-expression calls with more arguments than the engine reads ----------------------------------------------------------
 _RE_SIGNATURES = {"re.sub": ("pattern", "repl", "string", "count", "flags"), "re.split": ("pattern", "string", "maxsplit", "flags"),
                   "re.findall": ("pattern", "string", "flags")}  # the calls the engine models, with their full signatures
@@ -237,15 +267,41 @@ def ascii_pattern(pat: str) -> "str | None":
 
 
 class FlagAwareInterp(CharInterp):
-    """CharInterp reads `re.sub / re.split / re.findall` as (pattern, [replacement,] string) under Unicode matching.  A call that says
+    """The character interpreter with some constructs brought into a form it reads: regular-expression calls with flags / limits
+    (below), `xs or []` as a list-valued expression, the truth of a name bound to None, and a type test of a value an earlier test has already decided.  CharInterp reads `re.sub / re.split / re.findall` as (pattern, [replacement,] string) under Unicode matching.  A call that says
     more is rewritten into the call of that form that means the same - flags=re.ASCII by writing the ASCII classes into the pattern,
     flags=0 / re.UNICODE, count=0, maxsplit=0 by leaving them out - and anything else is refused (exit 2): an argument that changes
     what the call computes is never ignored."""
+
+    def ev(self, n: ast.expr, env: dict[str, Any], m: Any) -> Any:
+        # `xs or []` / `xs or ys` of lists is a list again: one of the operands (the engine reads `or` as a condition only)
+        if isinstance(n, ast.BoolOp) and isinstance(n.op, ast.Or):
+            try:
+                vals = [self.ev(v, env, m) for v in n.values]
+            except AnalysisError:
+                vals = []  # (the engine does not evaluate what follows an operand that decides: let it read the expression its way)
+            lists = [v for v in vals if isinstance(v, L)]
+            if lists and all(isinstance(v, L) or v is None or v == ("container",) for v in vals):
+                out = lists[0]
+                for v in lists[1:]:
+                    out = self.join_any(out, v)
+                return L(out.elem if out.head is None else join_s(out.elem, out.head), True)
+        return super().ev(n, env, m)
+
+    def truth(self, n: ast.expr, env: dict[str, Any], m: Any) -> Any:
+        if isinstance(n, ast.Name) and n.id in env and env[n.id] is None:
+            return False  # a name bound to None
+        return super().truth(n, env, m)
 
     def call(self, n: ast.Call, env: dict[str, Any], m: Any) -> Any:
         fn = dotted(n.func)
         if fn in _RE_SIGNATURES and self._callee(fn, m) is None:
             n = self._plain_regex_call(fn, n, m)
+        if fn == "isinstance" and len(n.args) == 2 and isinstance(n.args[0], ast.Name) and dotted(n.args[1]) in ("int", "str"):
+            # a test of something an earlier test on this path has already decided has one outcome: the other branch is not a path
+            v = env.get(n.args[0].id)
+            if isinstance(v, (I, S)):
+                return isinstance(v, I) == (dotted(n.args[1]) == "int")
         return super().call(n, env, m)
 
     def _flag_names(self, e: ast.expr, m: Any, at: str) -> set[str]:
